@@ -236,20 +236,20 @@ class Index(_Gap):
 
 class MultiIndex(Index):
     def __init__(self, levels, names, present=None, dtypes=None):
-        self.levels = [[z3.IntVal(l) if isinstance(l, (int, np.integer)) else l for l in lv] for lv in levels]
+        self._lv = [[z3.IntVal(l) if isinstance(l, (int, np.integer)) else l for l in lv] for lv in levels]
         self._names = list(names)
-        n = len(self.levels[0])
+        n = len(self._lv[0])
         self.present = list(present) if present is not None else [T] * n
         self.labels = [None] * n
         self.name = None
         self.dtype = np.dtype(object)
-        self.dtypes = list(dtypes) if dtypes is not None else [np.dtype("int64")] * len(self.levels)
+        self.dtypes = list(dtypes) if dtypes is not None else [np.dtype("int64")] * len(self._lv)
 
     def copy(self):
-        return MultiIndex(self.levels, self._names, self.present, self.dtypes)
+        return MultiIndex(self._lv, self._names, self.present, self.dtypes)
 
     def with_present(self, present):
-        return MultiIndex(self.levels, self._names, present, self.dtypes)
+        return MultiIndex(self._lv, self._names, present, self.dtypes)
 
     @property
     def names(self):
@@ -257,20 +257,31 @@ class MultiIndex(Index):
 
     @property
     def nlevels(self):
-        return len(self.levels)
+        return len(self._lv)
+
+    @property
+    def levels(self):
+        """pandas' level dictionaries: the distinct values of each level over ALL stored rows — rows filtered out of the frame
+        keep their entries ("unused levels") — as one Index per level"""
+        out = []
+        n = len(self.present)
+        for i, lv in enumerate(self._lv):
+            first = [z3.Not(zor(lv[j] == lv[k] for j in range(k))) for k in range(n)]
+            out.append(Index(lv, first, self._names[i], self.dtypes[i]))
+        return out
 
     def get_level_values(self, i):
-        return Index(self.levels[i], self.present, self._names[i], self.dtypes[i])
+        return Index(self._lv[i], self.present, self._names[i], self.dtypes[i])
 
     def to_frame(self, allow_duplicates=False, index=True):
         cols = [(nm if nm is not None else i, Series(lv, present=self.present, dtype=dt, index=self.copy()))
-                for i, (nm, lv, dt) in enumerate(zip(self._names, self.levels, self.dtypes))]
+                for i, (nm, lv, dt) in enumerate(zip(self._names, self._lv, self.dtypes))]
         return DataFrame(cols, present=self.present, index=self.copy())
 
     def equals(self, other):
-        if not isinstance(other, MultiIndex) or len(other.levels) != len(self.levels) or len(other.present) != len(self.present):
+        if not isinstance(other, MultiIndex) or len(other._lv) != len(self._lv) or len(other.present) != len(self.present):
             return False
-        return sb(zand(z3.And(p == q, z3.Implies(p, zand(a[i] == b[i] for a, b in zip(self.levels, other.levels))))
+        return sb(zand(z3.And(p == q, z3.Implies(p, zand(a[i] == b[i] for a, b in zip(self._lv, other._lv))))
                        for i, (p, q) in enumerate(zip(self.present, other.present))))
 
 
@@ -366,12 +377,12 @@ class Series(_Gap):
         return self._new(vals=[z3.If(n, vz, v) for v, n in zip(self.vals, self.nulls)], nulls=[F] * len(self.vals))
 
     # ------------------------------------------------------------ reductions
-    def any(self):
+    def any(self, axis=None):
         if self.kind != "bool":
             raise ModelGap("any() on non-bool")
         return sb(zor(z3.And(p, v) for p, v in zip(self.present, self.vals)))
 
-    def all(self):
+    def all(self, axis=None):
         if self.kind != "bool":
             raise ModelGap("all() on non-bool")
         return sb(zand(z3.Implies(p, v) for p, v in zip(self.present, self.vals)))
@@ -408,6 +419,12 @@ class Series(_Gap):
             if self.kind == "object" and any(isinstance(x, tuple) for x in self.vals):
                 return self._new()  # rendered row labels: the tuple of level terms stands for its own text
             return StrPlaceholderSeries()
+        if isinstance(t, real_pd.CategoricalDtype):
+            # pandas: values outside the categories become missing, nothing is raised
+            if self.kind != "str" or t.categories is None or not all(isinstance(c, str) for c in t.categories):
+                raise ModelGap("astype(category) of a non-string column")
+            cats = [z3.StringVal(c) for c in t.categories]
+            return self._new(nulls=[z3.Or(n, z3.Not(zor(v == c for c in cats))) for v, n in zip(self.vals, self.nulls)], dtype=t, kind="str")
         try:
             dt = np.dtype(t)
         except TypeError:
@@ -1039,7 +1056,8 @@ class PdProxy:
                     else:
                         dt = np.asarray([v]).dtype
                         cols.append((k, Series([v] * n, dtype=dt if dt.kind != "U" else np.dtype(object))))
-            return DataFrame(cols, present=index.present if index is not None else None, index=index)
+            pres = index.present if index is not None else next((c.present for _, c in cols if isinstance(c, Series)), None)
+            return DataFrame(cols, present=pres, index=index)
         return real_pd.DataFrame(data=data, index=index, **kw)
 
     @staticmethod
